@@ -124,6 +124,12 @@ Proof. intros s a b H. cbn [eval]. rewrite H. reflexivity. Qed.
 Lemma ev_and_true : forall s a b x y, eval s a = Ok (VInt x) -> Z.eqb x 0 = false -> eval s b = Ok (VInt y) ->
   eval s (EAnd a b) = Ok (VInt (if Z.eqb y 0 then 0 else 1)).
 Proof. intros s a b x y H1 N H2. cbn [eval]. rewrite H1. cbn [bind as_int]. rewrite N, H2. reflexivity. Qed.
+Lemma ev_and_gen : forall s a b x y, eval s a = Ok (VInt x) -> eval s (if Z.eqb x 0 then EConst 0 else b) = Ok (VInt y) ->
+  eval s (EAnd a b) = Ok (VInt (if Z.eqb x 0 then 0 else if Z.eqb y 0 then 0 else 1)).
+Proof. intros s a b x y H1 H2. cbn [eval]. rewrite H1. cbn [bind as_int]. destruct (Z.eqb x 0); [reflexivity|]. rewrite H2. reflexivity. Qed.
+Lemma ev_or_gen : forall s a b x y, eval s a = Ok (VInt x) -> eval s (if Z.eqb x 0 then b else EConst 1) = Ok (VInt y) ->
+  eval s (EOr a b) = Ok (VInt (if Z.eqb x 0 then (if Z.eqb y 0 then 0 else 1) else 1)).
+Proof. intros s a b x y H1 H2. cbn [eval]. rewrite H1. cbn [bind as_int]. destruct (Z.eqb x 0); [|reflexivity]. rewrite H2. reflexivity. Qed.
 Lemma ev_or_true : forall s a b x, eval s a = Ok (VInt x) -> Z.eqb x 0 = false -> eval s (EOr a b) = Ok (VInt 1).
 Proof. intros s a b x H N. cbn [eval]. rewrite H. cbn [bind as_int]. rewrite N. reflexivity. Qed.
 Lemma ev_or_false : forall s a b y, eval s a = Ok (VInt 0) -> eval s b = Ok (VInt y) ->
@@ -179,8 +185,8 @@ Ltac ev_with ld :=
       | ECast _ _ => eapply ev_cast; ev_with ld
       | EBin _ _ _ _ => eapply ev_bin; [ev_with ld | ev_with ld | evs; ar]
       | EUn _ _ _ => eapply ev_un; [ev_with ld | evs; ar]
-      | EAnd _ _ => first [eapply ev_and_false; ev_with ld | eapply ev_and_true; [ev_with ld | evs; reflexivity | ev_with ld]]
-      | EOr _ _ => first [eapply ev_or_true; [ev_with ld | evs; reflexivity] | eapply ev_or_false; [ev_with ld | ev_with ld]]
+      | EAnd _ _ => eapply ev_and_gen; [ev_with ld | lazy beta iota; repeat (zeval1; lazy beta iota); ev_with ld]
+      | EOr _ _ => eapply ev_or_gen; [ev_with ld | lazy beta iota; repeat (zeval1; lazy beta iota); ev_with ld]
       | ECond _ _ _ => eapply ev_cond; [ev_with ld | lazy beta iota; repeat (zeval1; lazy beta iota); ev_with ld]
       | EIsNull _ => first [eapply ev_isnull_ptr; ev_with ld | eapply ev_isnull_null; ev_with ld]
       | EPtrAdd _ _ _ => eapply ev_ptradd; ev_with ld
